@@ -232,7 +232,12 @@ func runWorkload(c *Case) (overlap bool, f *vf.Failure) {
 			case 1:
 				q = fmt.Sprintf("SELECT id, v FROM t WHERE g = %d;", rng.Intn(4))
 			case 2:
-				q = fmt.Sprintf("INSERT INTO t(id, g, v) VALUES (%d, %d, 1);", atomic.AddInt64(&nextID, 1), 10+rng.Intn(3))
+				if rng.Intn(2) == 0 {
+					// long rows: the heap grows by a page every few inserts, while other clients insert into the same heap
+					q = fmt.Sprintf("INSERT INTO u(id, s) VALUES (%d, '%s');", atomic.AddInt64(&nextID, 1), strings.Repeat("n", 300+rng.Intn(400)))
+				} else {
+					q = fmt.Sprintf("INSERT INTO t(id, g, v) VALUES (%d, %d, 1);", atomic.AddInt64(&nextID, 1), 10+rng.Intn(3))
+				}
 			case 3:
 				q = fmt.Sprintf("SELECT t.id, u.id FROM t, u WHERE t.id = u.id AND t.g = %d;", rng.Intn(4))
 			case 4:
@@ -276,8 +281,7 @@ func runWorkload(c *Case) (overlap bool, f *vf.Failure) {
 		for atomic.LoadInt32(&stop) == 0 {
 			db.Checkpoint()
 			time.Sleep(3 * time.Millisecond)
-			for _, name := range []string{"t", "u"} {
-				tm := db.Cat().GetTableByName(name)
+			for _, tm := range db.Cat().GetAllTables() { // as the engine's own statistics thread does: every table, also ones being created
 				t := db.Begin()
 				tm.GetStatistics().Update(tm, t.T)
 				if !t.Done {
@@ -304,9 +308,55 @@ func runWorkload(c *Case) (overlap bool, f *vf.Failure) {
 		}
 	}
 	var bg sync.WaitGroup
-	if c.Workload == "mixed" {
+	if c.Workload == "mixed" || c.Workload == "ddl" {
 		bg.Add(1)
 		go func() { defer bg.Done(); backgroundLoop() }()
+	}
+	if c.Workload == "ddl" {
+		// tables are created all through the run while two more goroutines refresh the statistics of every table
+		// (catalog tables included) without pause, as the engine's own statistics thread does periodically
+		for k := 0; k < 2; k++ {
+			bg.Add(1)
+			go func() {
+				defer bg.Done()
+				for atomic.LoadInt32(&stop) == 0 {
+					for _, tm := range db.Cat().GetAllTables() {
+						t := db.Begin()
+						tm.GetStatistics().Update(tm, t.T)
+						if !t.Done {
+							t.Commit()
+						}
+					}
+				}
+			}()
+		}
+		wg.Add(1)
+		go func() {
+			defer wg.Done()
+			for n := 0; n < 5; n++ {
+				enter()
+				db.S.ExecuteSQL(fmt.Sprintf("CREATE TABLE y%d(a int, b int);", n))
+				db.S.ExecuteSQL(fmt.Sprintf("INSERT INTO y%d(a, b) VALUES (%d, 1);", n, n))
+				leave()
+				time.Sleep(5 * time.Millisecond)
+			}
+		}()
+	}
+	if c.Workload == "mixed" && c.KB >= 240 && c.Bulk == 0 {
+		// a client that creates tables while the others work (CREATE TABLE flushes catalog pages); every table keeps
+		// six more frames pinned for its two skip-list indexes, so only in the larger pools and only three tables
+		wg.Add(1)
+		go func() {
+			defer wg.Done()
+			for n := 0; n < 3; n++ {
+				enter()
+				db.S.ExecuteSQL(fmt.Sprintf("CREATE TABLE x%d(a int, b varchar(20));", n))
+				db.S.ExecuteSQL(fmt.Sprintf("INSERT INTO x%d(a, b) VALUES (%d, 'ddl');", n, n))
+				db.S.ExecuteSQL(fmt.Sprintf("SELECT a, b FROM x%d WHERE a = %d;", n, n))
+				leave()
+				time.Sleep(2 * time.Millisecond)
+			}
+		}()
 	}
 	clientsDone := make(chan struct{})
 	go func() { wg.Wait(); close(clientsDone) }()
@@ -377,7 +427,7 @@ func indexWorkload(db *dbh.DB, c *Case) bool {
 
 // ---- test ------------------------------------------------------------------------------------------------
 
-const rule = "Case = one run of a concurrent workload in a -race binary: 'sql' (4-12 goroutines calling SamehadaDB.ExecuteSQL: multi-row updates, selects, inserts, deletes, joins, relocating updates), 'txn' (multi-statement transactions through parser/optimizer/planner/executors with commit/abort), 'mixed' (both + a goroutine forcing checkpoints and refreshing table statistics), 'index:<kind>' (inserters/deleters/readers/range scanners on one skip-list / unique-skip-list / B-tree / hash index); pools small enough to evict; in-memory and file-backed storage. Oracle: every WARNING: DATA RACE report of the Go race detector whose racing accesses have a frame inside github.com/ryogrid/SamehadaDB/lib is a violation, identified by the unordered pair of innermost repository functions (reports entirely inside third-party modules or the harness are counted but do not count). Non-trivial = a run in which at least two goroutines were inside engine calls at the same time."
+const rule = "Case = one run of a concurrent workload in a -race binary: 'sql' (4-12 goroutines calling SamehadaDB.ExecuteSQL: multi-row updates, selects, inserts, deletes, joins, relocating updates), 'txn' (multi-statement transactions through parser/optimizer/planner/executors with commit/abort), 'mixed' (both + a goroutine forcing checkpoints and refreshing table statistics + a client creating tables), 'ddl' (sql/txn clients + a client creating tables all through the run + goroutines refreshing the statistics of every table without pause), 'index:<kind>' (inserters/deleters/readers/range scanners on one skip-list / unique-skip-list / B-tree / hash index); pools small enough to evict; in-memory and file-backed storage. Oracle: every WARNING: DATA RACE report of the Go race detector whose racing accesses have a frame inside github.com/ryogrid/SamehadaDB/lib is a violation, identified by the unordered pair of innermost repository functions (reports entirely inside third-party modules or the harness are counted but do not count). Non-trivial = a run in which at least two goroutines were inside engine calls at the same time."
 
 var assumptions = []string{
 	"the race detector only sees executed schedules; absence of reports is not absence of races",
@@ -395,13 +445,15 @@ func TestRace(t *testing.T) {
 		t.Skip("VERIF_RACE_LOG not set (driver sets GORACE log_path)")
 	}
 	rng := rand.New(rand.NewSource(s.Seed*6151 + int64(s.Shard)))
-	workloads := []string{"sql", "txn", "mixed", "index:" + dbh.IdxSkip, "mixed", "index:" + dbh.IdxUniqSkip, "sql", "index:" + dbh.IdxBtree, "mixed", "index:" + dbh.IdxHash}
+	workloads := []string{"sql", "txn", "mixed", "index:" + dbh.IdxSkip, "mixed", "index:" + dbh.IdxUniqSkip, "sql", "index:" + dbh.IdxBtree, "ddl", "index:" + dbh.IdxHash}
 	runs := s.Pick(8, 40)
 	hangs := 0
 	for i := 0; i < runs; i++ {
 		c := &Case{Workload: workloads[(i*4+s.Shard)%len(workloads)], Clients: 4 + rng.Intn(9), Ops: s.Pick(60, 150), KB: []int{160, 240, 800}[rng.Intn(3)], File: s.Shard%3 == 0, Seed: rng.Int63()}
 		if strings.HasPrefix(c.Workload, "index:") {
 			c.KB = 400
+		} else if c.Workload == "ddl" {
+			c.KB, c.Clients = 800, 4 // every created table pins six more frames for good
 		} else if i%2 == 1 {
 			// working set larger than the pool: dirty pages are evicted while other goroutines commit
 			c.KB, c.Bulk = []int{160, 200}[rng.Intn(2)], 160+rng.Intn(80)
